@@ -95,6 +95,8 @@ enum Kind {
     SelfRestart { variant: u32 },
     /// one direct line typed many times (with a resident program)
     RepeatDirect { variant: u32 },
+    /// one direct line typed and broken by Ctrl-C many times
+    RepeatInterrupted { variant: u32 },
     Limit { which: u32, variant: u32, then_new: bool },
     /// fill / zero / fill more slots than the pool holds
     ZeroFrees { ty: u32, zero: u32 },
@@ -652,6 +654,49 @@ impl Case for C18Case {
                 }
                 v.nontrivial = true;
             }
+            Kind::RepeatInterrupted { variant } => {
+                // a direct-mode loop (or INPUT) broken by Ctrl-C 25 000 times: a break in direct mode
+                // may leave nothing on the stack
+                let prog: Vec<String> = ["10 X=X+1:RETURN"].iter().map(|s| s.to_string()).collect();
+                enter_program(&mut w, &prog);
+                w.quiet = true;
+                let line = ["FOR I=1 TO 1000:NEXT", "FOR I=1 TO 9:FOR J=1 TO 999:NEXT:NEXT", "INPUT A,B", "FOR I=1 TO 1000:GOSUB 10:NEXT", "WHILE 1:A=A+1:WEND"][(*variant as usize) % 5];
+                let mut first_err: Option<String> = None;
+                for i in 0..25_000u32 {
+                    let io = LineIo {
+                        intrs: vec![When::Instr(3 + (i % 37) as u64)],
+                        max_instr: 5000,
+                        ..Default::default()
+                    };
+                    let o = w.line(line, &io);
+                    if let Some(e) = line_errors(&w, &o).iter().find(|e| e.starts_with("?OUT OF MEMORY")) {
+                        first_err = Some(format!("{} after {} interrupted lines", e, i + 1));
+                        break;
+                    }
+                    if w.fatal.is_some() {
+                        break;
+                    }
+                    w.events.clear();
+                }
+                w.stats.bump("c18.repeat_interrupted_direct");
+                if first_err.is_none() && w.fatal.is_none() {
+                    // and the stack is really empty: a recursion that needs 65 000 slots still fits
+                    w.events.clear();
+                    w.line("20 D=D+1:IF D<65000 THEN GOSUB 20", &LineIo::budget(100));
+                    w.line("30 RETURN", &LineIo::budget(100));
+                    let o = w.line("D=0:GOSUB 20:PRINT \"DONE\"", &LineIo::budget(3_000_000));
+                    if let Some(e) = line_errors(&w, &o).iter().find(|e| e.starts_with("?OUT OF MEMORY")) {
+                        first_err = Some(format!("{} in a recursion 65 000 deep typed after 25 000 interrupted lines", e));
+                    }
+                }
+                if let Some(e) = first_err {
+                    fail = Some(Violation {
+                        key: "C18:residue:interrupted-direct-line".into(),
+                        detail: format!("{:?} + Ctrl-C: {}", line, e),
+                    });
+                }
+                v.nontrivial = true;
+            }
             Kind::RepeatDirect { variant } => {
                 let prog: Vec<String> = ["10 X=X+1:RETURN", "20 DATA 1,2,3"].iter().map(|s| s.to_string()).collect();
                 enter_program(&mut w, &prog);
@@ -870,6 +915,7 @@ impl Case for C18Case {
             }
             Kind::SelfRestart { variant } => b.set("kind", "C18 program restarting itself with RUN from inside GOSUB/FOR 70 000 times").set("variant", *variant as i64).build(),
             Kind::RepeatDirect { variant } => b.set("kind", "C18 one direct line typed 70 000 times").set("variant", *variant as i64).build(),
+            Kind::RepeatInterrupted { variant } => b.set("kind", "C18 one direct-mode loop / INPUT typed and broken by Ctrl-C 25 000 times, then a recursion 65 000 deep").set("variant", *variant as i64).build(),
             Kind::Limit { which, variant, then_new } => {
                 let (prog, tag, _) = limit_program(*which, *variant);
                 let shown: Vec<String> = prog.iter().take(4).map(|l| l.chars().take(120).collect()).collect();
@@ -917,7 +963,8 @@ impl Property for C18 {
                 }
             }
             85..=86 => Kind::SelfRestart { variant: rng.below(3) as u32 },
-            87..=88 => Kind::RepeatDirect { variant: rng.below(8) as u32 },
+            87 => Kind::RepeatDirect { variant: rng.below(8) as u32 },
+            88 => Kind::RepeatInterrupted { variant: rng.below(5) as u32 },
             89..=95 => Kind::Limit {
                 which: rng.below(8) as u32,
                 variant: rng.below(12) as u32,
@@ -947,7 +994,7 @@ impl Property for C18 {
         }
     }
     fn rule(&self) -> &'static str {
-        "one evaluation = (85%) a loop body of 1-4 statement families (PRINT lists, LET with temporaries, SWAP, MID$=, READ+RESTORE, IF/ELSE, ON..GOSUB and ON..GOTO with the selector in and out of range, completed inner FOR / WHILE, GOSUB incl. RETURN out of an open FOR, nested FN calls, INPUT with REDO cycles, DIM+ERASE, forward GOTO, INKEY$) wrapped as FOR / GOTO-counter / WHILE loop, subroutine called in a loop (300 000 iterations; sizes probed at two STOPs 1000 iterations apart, the run is continued to the end when anything grew and in 10% of the cases regardless) or typed as a 70 000-iteration direct-mode loop; (4%) a program restarting itself with RUN from inside GOSUB/FOR 70 000 times, or one direct line typed 70 000 times; (7%) a pool driven past 64K (GOSUB recursion, FN recursion, FOR re-entered, > 65 535 variables / DATA values / opcodes, INPUT / nested FN calls / nested FOR+READ executed with 0-20 free stack slots), then canary, listing, NEW or CLEAR and a small program compared with a fresh runtime; (4%) three arrays of 30 001 elements filled and zeroed in turn; distinct = distinct API/event log fingerprint"
+        "one evaluation = (85%) a loop body of 1-4 statement families (PRINT lists, LET with temporaries, SWAP, MID$=, READ+RESTORE, IF/ELSE, ON..GOSUB and ON..GOTO with the selector in and out of range, completed inner FOR / WHILE, GOSUB incl. RETURN out of an open FOR, nested FN calls, INPUT with REDO cycles, DIM+ERASE, forward GOTO, INKEY$) wrapped as FOR / GOTO-counter / WHILE loop, subroutine called in a loop (300 000 iterations; sizes probed at two STOPs 1000 iterations apart, the run is continued to the end when anything grew and in 10% of the cases regardless) or typed as a 70 000-iteration direct-mode loop; (4%) a program restarting itself with RUN from inside GOSUB/FOR 70 000 times, one direct line typed 70 000 times, or a direct-mode loop / INPUT broken by Ctrl-C 25 000 times; (7%) a pool driven past 64K (GOSUB recursion, FN recursion, FOR re-entered, > 65 535 variables / DATA values / opcodes, INPUT / nested FN calls / nested FOR+READ executed with 0-20 free stack slots), then canary, listing, NEW or CLEAR and a small program compared with a fresh runtime; (4%) three arrays of 30 001 elements filled and zeroed in turn; distinct = distinct API/event log fingerprint"
     }
     fn assumptions(&self) -> Vec<&'static str> {
         vec![
@@ -964,6 +1011,7 @@ impl Property for C18 {
             "c18.fast_path_no_growth",
             "c18.self_restart",
             "c18.repeat_direct",
+            "c18.repeat_interrupted_direct",
             "c18.limit.gosub_recursion",
             "c18.limit.fn_recursion",
             "c18.limit.for_reentered",
